@@ -222,7 +222,7 @@ def rule_cache(ctx, rule_single, rule_negative):
         else:
             good = getattr(res, "name", None) == "Err" and contains_id(res, d["error"]) and not d["cached"]
             msg = "when instantiation fails get_library yields %r and the instance cache holds %s; expected the error and nothing cached" % (res, d["cached"])
-            if good and d["registered"] != 1:
+            if good and d["registered"] != 1 and rule.startswith("C14"):
                 good = False
                 msg = "when the instantiation of a REGISTERED library fails, its factory is no longer registered afterwards (%d factories " \
                       "left): the next import of the same library on this interpreter reports `library not found` instead of the same " \
